@@ -637,6 +637,7 @@ pub fn run_consist(ctx: &mut Ctx, rng: &mut Rng, steps: usize) {
         }
     }
     let fixed_dt = if rng.chance(0.5) { Some(1.0f64.min(dt_max)) } else { None };
+    let engines_off_run = rng.chance(0.3);
     let mut stats: Vec<Value> = con.loco_vec.iter().map(unit_static).collect();
     let mut shadows: Vec<Shadow> = vec![Shadow::default(); n];
     let mut csh = Shadow::default();
@@ -669,7 +670,13 @@ pub fn run_consist(ctx: &mut Ctx, rng: &mut Rng, steps: usize) {
         let dt = fixed_dt.map(|d| d.min(dt_max)).unwrap_or_else(|| rng.lrange(0.05, dt_max.max(0.051)));
         let pres: Vec<UnitSnap> = con.loco_vec.iter().map(snap).collect();
         let cpre = con.state;
-        con.set_pwr_aux(Some(true)).unwrap();
+        // engines commanded off for single steps (the `engine_on` argument of the consist API; the shipped
+        // simulations always pass `Some(true)`): only with braking or zero demand, as for single units
+        let eng_on = !(engines_off_run && rng.chance(0.12));
+        if !eng_on {
+            ctx.count("obs.consist_steps_with_engines_commanded_off");
+        }
+        con.set_pwr_aux(Some(eng_on)).unwrap();
         if let Err(e) = con.set_cur_pwr_max_out(None, uc::S * dt) {
             ctx.count(&format!("set_cur_pwr_max_out_err.{}", classify_err(&format!("{e:#}"))));
             ctx.rep.diag(json!({"case": ctx.case, "set_cur_pwr_max_out_err": format!("{e:#}").chars().take(400).collect::<String>()}));
@@ -677,9 +684,12 @@ pub fn run_consist(ctx: &mut Ctx, rng: &mut Rng, steps: usize) {
         }
         let publs: Vec<UnitSnap> = con.loco_vec.iter().map(snap).collect();
         let cp = con.state;
-        let demand = adv.choose(rng, cp.pwr_out_max.value, cp.pwr_regen_max.value, cp.pwr_dyn_brake_max.value, Some(cp.pwr_out_max_reves.value));
+        let mut demand = adv.choose(rng, cp.pwr_out_max.value, cp.pwr_regen_max.value, cp.pwr_dyn_brake_max.value, Some(cp.pwr_out_max_reves.value));
+        if !eng_on && demand > 0.0 {
+            demand = if rng.chance(0.3) { 0.0 } else { -demand.min(cp.pwr_dyn_brake_max.value) };
+        }
         let backup = con.clone();
-        let r = con.solve_energy_consumption(uc::W * demand, uc::S * dt, Some(true));
+        let r = con.solve_energy_consumption(uc::W * demand, uc::S * dt, Some(eng_on));
         match r {
             Ok(()) => {
                 ctx.count("consist_steps.accepted");
@@ -691,7 +701,7 @@ pub fn run_consist(ctx: &mut Ctx, rng: &mut Rng, steps: usize) {
                 for i in 0..n {
                     let st = stats[i].clone();
                     let statf = move || st.clone();
-                    let si = StepInfo { who: format!("consist unit {i} of {n}"), step: k, demand: posts[i].loco.pwr_out.value, dt, engine_on: true, in_consist: true, stat: &statf };
+                    let si = StepInfo { who: format!("consist unit {i} of {n}"), step: k, demand: posts[i].loco.pwr_out.value, dt, engine_on: eng_on, in_consist: true, stat: &statf };
                     check_unit(ctx, &con.loco_vec[i], &pres[i], &publs[i], &posts[i], &mut shadows[i], &si);
                 }
                 check_consist(ctx, &con, &cpre, &cp, &publs, &posts, demand, dt, k, greedy, &stats, &mut csh);
